@@ -1,9 +1,11 @@
 import WuffsVerif.Common.Line
 import WuffsVerif.Model.Indent
 import WuffsVerif.Model.Render
+import WuffsVerif.Model.RenderTokens
 /-! Line driver for C12.  Ops:
   format <tabs 0|1> <spaces n> <hex>   -> ok <hex>      (lib/dumbindent FormatBytes(nil, src, opts))
   num <hex>                            -> ok <hex>      (lang/render appendNum(nil, s))
+  fmt <hex>                            -> ok <hex> | reject   (token.Tokenize + render.Render, no parse gate)
 -/
 open WuffsVerif WuffsVerif.Line
 
@@ -18,6 +20,12 @@ def c12Step (l : List String) : String :=
       | some out => "ok " ++ toHex out
       | none => "err fuel"
     | _, _ => "bad-op"
+  | ["fmt", hx] =>
+    match fromHex hx with
+    | some s => match Render.fmt s with
+      | some out => "ok " ++ toHex out
+      | none => "reject"
+    | none => "bad-op"
   | ["num", hx] =>
     match fromHex hx with
     | some s => "ok " ++ toHex (Render.appendNum s)
